@@ -131,6 +131,7 @@ noncomputable instance instNumRVal (R : Rounding) : Num (RVal R) where
   neg := fun a => ⟨R.rnd (a.v * (-1))⟩
   isZero := fun a => decide (a.v = 0)
   lt := fun a b => decide (a.v < b.v)
+  isNaN := fun _ => false
 
 namespace NumR
 variable {R : Rounding}
@@ -144,6 +145,7 @@ variable {R : Rounding}
 @[simp] theorem exp_v (a : RVal R) : (Num.exp a).v = R.ex a.v := rfl
 @[simp] theorem isZero_eq (a : RVal R) : Num.isZero a = decide (a.v = 0) := rfl
 @[simp] theorem lt_eq (a b : RVal R) : Num.lt a b = decide (a.v < b.v) := rfl
+@[simp] theorem isNaN_eq (a : RVal R) : Num.isNaN a = false := rfl
 theorem div?_eq (a b : RVal R) :
     Num.div? a b = if b.v = 0 then none else some ⟨R.rnd (a.v / b.v)⟩ := rfl
 
